@@ -485,7 +485,14 @@ const FINALS_SUPPORTED: &[char] = &[
 const FINALS_UNSUPPORTED: &[char] = &['S', 'T', 'n', 'q', 's', 'u', 'Z', '`', 'b', 'i', 'p', 't', 'x', 'y', '~'];
 
 fn csi_param(src: &mut Src) -> String {
-    match src.weighted(&[6, 14, 6, 2, 2, 1]) {
+    match src.weighted(&[6, 14, 6, 2, 2, 1, 2]) {
+        6 => {
+            // boundary values around machine-integer widths: 2^k + d
+            let k = *src.pick(&[8u32, 15, 16, 24, 31, 32, 33, 48, 63, 64, 65, 80]);
+            let d = *src.pick(&[-1i64, 0, 1, 5, 9998, 10000]);
+            let v: u128 = ((1u128 << k) as i128 + d as i128) as u128;
+            v.to_string()
+        }
         0 => String::new(),
         1 => src.range(0, 12).to_string(),
         2 => src.pick(&[0u32, 1, 2, 3, 4, 5, 6, 7, 20, 25, 38, 48, 80, 132, 255, 256, 9999]).to_string(),
@@ -537,7 +544,9 @@ pub fn token(src: &mut Src, wellformed: bool, out: &mut String) {
                 }
                 out.push_str(&csi_param(src));
                 if src.chance(16) {
-                    out.push(*src.pick(&['\x07', '\x08', '\x09', '\x0a', '\x0d', ' ', '>']));
+                    out.push(*src.pick(&[
+                        '\x07', '\x08', '\x09', '\x0a', '\x0b', '\x0c', '\x0d', ' ', '>', '\x0e', '\x0f', '\x00', '\x7f',
+                    ]));
                 }
             }
             match src.weighted(&[40, 5, 3, 3]) {
